@@ -2,8 +2,8 @@
    [walk tol fuel f] follows every structure reachable from the superblock of the file [f] and returns the visited
    extents (start, end, kind), a summary of the tree and the deviations it tolerated; tools/props/c05walk.py compares it
    with the independent Python walker on the bytes of files written by the library. *)
-From HV Require Import Base.Prelude Base.Outcome Base.Bytes Spec.Parse Spec.Walk Model.Wellformed Model.RefWalkTie Proofs.Walk
-  Proofs.WalkDenseExamples.
+From HV Require Import Base.Prelude Base.Outcome Base.Bytes Spec.Parse Spec.FormatMsg Spec.Walk Model.Wellformed Model.RefWalkTie
+  Model.DenseLinkMsg Proofs.Walk Proofs.WalkDenseExamples Proofs.DenseLinkMsg.
 
 (* (1) For ALL byte strings, tolerances and fuels: every extent a successful walk returns is non-empty and ends inside
    the file - extents enter the result only through the checked [add_ext]. *)
@@ -83,3 +83,32 @@ Print Assumptions C05_btree2_link_id_truncated_refuted.
 Theorem C05_refcount_ignores_dense_links_refuted : walk_code (tol_all_but 114) default_fuel dense_witness = 314.
 Proof. exact dense_witness_needs_refcount_ignores_dense_links. Qed.
 Print Assumptions C05_refcount_ignores_dense_links_refuted.
+
+(* (5) The densely stored link message, UNIVERSALLY over link names of 1 .. 255 bytes and target addresses (size of offsets 8):
+   [enc_dense_link] is the transcription of internal/writer/densegroup_writer.go createLinkMessage (Model/DenseLinkMsg.v; tied to the
+   library on every run by tools/props/c05.py dense_link_tie: the model's bytes occur in the written file for every link the Coq walker
+   resolves).
+   (a) Read per specification (IV.A.2.g: version | flags | ... | length of name | name | address) the message is never the link that
+       was stored: the decoder rejects it, except for names of exactly 2 bytes, where it returns the 4-byte name 00 02 n0 n1. *)
+Theorem C05_dense_link_spec_misread : forall tol name addr, 0 < blen name -> blen name < 256 ->
+  match spec_dec_link tol 8 false (enc_dense_link name addr 8) with
+  | Ok (l, _) => blen name = 2 /\ ls_name l = 0 :: 2 :: name
+  | _ => True
+  end.
+Proof. exact spec_dec_enc. Qed.
+Print Assumptions C05_dense_link_spec_misread.
+
+Theorem C05_dense_link_spec_never_the_stored_link : forall tol name addr l tg, 0 < blen name -> blen name < 256 ->
+  spec_dec_link tol 8 false (enc_dense_link name addr 8) = Ok (l, tg) -> ls_name l <> name.
+Proof. exact spec_never_the_stored_link. Qed.
+Print Assumptions C05_dense_link_spec_never_the_stored_link.
+
+(* (b) The walker's decoder of the private layout (what the deviation X_dense_link_private_layout tolerates) inverts the writer: the
+       link IS recoverable, name and target, by a decoder that knows the layout. *)
+Theorem C05_dense_link_private_decoder_inverts_writer : forall c name addr,
+  cO c = 8%nat -> 0 < blen name -> blen name < 256 -> addr < 256 ^ 8 ->
+  dec_link_private c (enc_dense_link name addr 8) =
+    Ok {| ls_flags := 0; ls_corder := None; ls_cset := 0; ls_name := name; ls_value := LHard addr |}.
+Proof. exact dec_private_enc. Qed.
+Print Assumptions C05_dense_link_private_decoder_inverts_writer.
+(* the hypotheses are satisfiable: Proofs/DenseLinkMsg.v dense_link_example (the link "x" -> 2199 of the witness file) *)
